@@ -114,8 +114,11 @@ def base_image(rng, ft, big=False):
     ir = ImplRun(img)
     with ScriptedClock():
         ir.mount()
-        for op in [["makedir", "/dir one"], ["makedir", "/dir one/inner"], ["writebytes", "/dir one/inner/deep file.bin", (b"D" * 1700).hex()],
-                   ["writebytes", "/A.TXT", (b"A" * 600).hex()], ["writebytes", "/a long name for the root.txt", (b"L" * 5000).hex()],
+        # contents depend on the position (a read that lands in the wrong cluster must show: C18-m6)
+        def pat(n, k):
+            return bytes((i * 7 + i // 251 + k) % 251 + 1 for i in range(n)).hex()
+        for op in [["makedir", "/dir one"], ["makedir", "/dir one/inner"], ["writebytes", "/dir one/inner/deep file.bin", pat(1700, 3)],
+                   ["writebytes", "/A.TXT", pat(600, 40)], ["writebytes", "/a long name for the root.txt", pat(5000, 90)],
                    ["makedir", "/E"], ["writebytes", "/E/x.bin", "00" * 513]] + [["create", f"/dir one/f{i:02d} with long name.txt"] for i in range(20)]:
             ir.op(op)
         ir.op(["closefs"])
